@@ -9,7 +9,7 @@ import (
 )
 
 func init() {
-	props["C02"] = &propDef{extraPkgs: []string{jsonPatchPkg}, run: runC02, explanation: "Structural clause of C02 decided by static analysis (engine G = exact must-pass-through on success edges of the CFG with interprocedural Ensures summaries; engine P = access-path provenance): every state-producing path of the update/recover/deactivate apply functions crosses the success edge of VerifyJWS on (op.SignedData, key parsed from that same signed data); VerifyJWS succeeds only across VerifySignature on the rebuilt signing input and both verifiers branch on the result of ecdsa/ed25519.Verify; the parser (batch and non-batch) accepts only across the reveal-value hash check on the signing key; signed-data parsing succeeds only across ParseJWS and the protected-header rules (alg present, non-empty, whitelist = {alg,kid}, alg in the configured list); document content / update commitment is installed only behind the delta-hash check on the same delta object; deactivate compares signed and request suffix. Not decided: unforgeability of the signature schemes and hash functions (trusted base). The header whitelist is a test against the constant set {alg,kid} in any spelling, in for-all form, and the loop cannot be bypassed. The JWS rules of C15 run inside this check."}
+	props["C02"] = &propDef{extraPkgs: []string{jsonPatchPkg}, run: runC02, explanation: "Structural clause of C02 decided by static analysis (engine G = exact must-pass-through on success edges of the CFG with interprocedural Ensures summaries; engine P = access-path provenance): every state-producing path of the update/recover/deactivate apply functions crosses the success edge of VerifyJWS on (op.SignedData, key parsed from that same signed data); VerifyJWS succeeds only across VerifySignature on the rebuilt signing input and both verifiers branch on the result of ecdsa/ed25519.Verify; the parser (batch and non-batch) accepts only across the reveal-value hash check on the signing key; signed-data parsing succeeds only across ParseJWS and the protected-header rules (alg present, non-empty, whitelist = {alg,kid}, alg in the configured list); document content / update commitment is installed only behind the delta-hash check on the same delta object; deactivate compares signed and request suffix. Not decided: unforgeability of the signature schemes and hash functions (trusted base). The header whitelist is a test against the constant set {alg,kid} in any spelling, in for-all form, and the loop cannot be bypassed. The JWS rules of C15 run inside this check. The applier's provenance table (C01.P1) runs inside this check."}
 }
 
 // tcall: a call found in the call tree of an entry function (in the function itself or in an unexported helper it
@@ -99,7 +99,7 @@ func callNamed(cl *ssa.Call, name string) bool {
 func (c *Ctx) applierParseCall(rule, typ string, f *ssa.Function) *tcall {
 	ok := c.treeCalls(f, nil, 0, func(cl *ssa.Call, env Env) bool {
 		a := declArgs(cl)
-		return callNamed(cl, parseOpMethod[typ]) && len(a) == 2 && c.Path(a[0], env) == "$1.OperationRequest" && c.Path(a[1], env) == "true"
+		return c.callNamedDyn(cl, env, parseOpMethod[typ]) && len(a) == 2 && c.Path(a[0], env) == "$1.OperationRequest" && c.Path(a[1], env) == "true"
 	})
 	if len(ok) != 1 {
 		c.Check(rule, "apply-"+typ+":parse-call", false, f.Pos(), fmt.Sprintf("expected exactly one call %s(anchoredOp.OperationRequest, true) in %s, found %d", parseOpMethod[typ], short(f.String()), len(ok)))
@@ -390,12 +390,16 @@ func runC02(c *Ctx) {
 	c.Assume("ECDSA / EdDSA / SHA-2 and go-jose key decoding are a trusted base; counterfeiter doubles (pkg/mocks, *.gen.go) are excluded from interface-call resolution")
 	// "a compact JWS that verifies under the public key": what verification accepts (signature length and split, digest,
 	// Verify result) is decided by the JWS rules of C15, which run inside this check
-	runC15(c)
+	c.apart(runC15)
 	// the delta hash binds the delta only as far as the canonical form tells deltas apart: the JCS rules
 	c.jcsRules()
 	// … and only as far as what is hashed is what is applied: the request is decoded once, by encoding/json's Unmarshal,
 	// into the model the checks and the composer both read (the parser's rules, C07)
-	runC07(c)
+	c.apart(runC07)
+	// "content or commitments chosen by someone without the private key are never installed": every field of the state an
+	// accepted operation installs comes from its signed content, its anchoring coordinates or the previous state — the
+	// provenance table of the apply functions (C01.P1); a field filled from the unsigned envelope is someone else's choice
+	c.only(runC01, "C01.P1")
 }
 
 // lateStoreEvent: stores to field `fld` of an allocation of struct `named` that are NOT part of the
